@@ -381,6 +381,16 @@ JudgeTake(e, L) ==
   ELSE UNION {JudgeOneTake(L, e.extra.takes[i].by, e.extra.takes[i].keys, e.extra.takes[i].res, e.extra.takes[i].ids)
               : i \in 1..Len(e.extra.takes)}
 
+\* C42: the copied root reads, at every observed version and through every tag, what the original read
+JudgeCopy(e) ==
+  IF e.res # "ok" \/ "projs" \notin DOMAIN e.extra THEN {<<"CopyReadsSame", "copy-unreadable">>}
+  ELSE LET ps == e.extra.projs IN
+       (IF \A i \in 1..Len(ps) : (ps[i][1] \in DOMAIN obs) => ps[i][2] = obs[ps[i][1]] THEN {} ELSE {<<"CopyReadsSame", "version-differs">>})
+       \cup (IF e.extra.tags_before = e.extra.tags_after
+                /\ (\A i \in 1..Len(e.extra.tag_reads) :
+                      \E j \in 1..Len(e.extra.tags_before) : e.extra.tags_before[j] = e.extra.tag_reads[i])
+             THEN {} ELSE {<<"CopyReadsSame", "tags-differ">>})
+
 \* C12: the rows a DML statement removed / (re)inserted are the ones the SQL reference semantics selects
 JudgeDml(e, L, R, indexed) ==
   LET st == e.step
@@ -402,7 +412,7 @@ JudgeDml(e, L, R, indexed) ==
   ELSE {}
 
 Ops == {"create","append","overwrite","checkout","refresh","delete","update","merge_insert","compact","restore","reread","validate",
-        "query","take","take_probe","create_index","optimize_indices"}
+        "query","take","take_probe","create_index","optimize_indices","copy_reread","tag","drop_table"}
 
 Init == /\ l = 1 /\ obs = <<>> /\ hvT = <<>> /\ issued = {} /\ truth = <<>> /\ truthAt = <<>>
         /\ serial = {} /\ touched = <<>> /\ stable = FALSE /\ scn = 0 /\ bad = <<>>
@@ -429,7 +439,13 @@ Step(e) ==
       P == e.latest
       first == obs = <<>>
   IN
-  IF first
+  IF op = "drop_table"
+  THEN \* the table is removed; a later create starts a new incarnation at the same location
+       /\ obs' = <<>> /\ hvT' = <<>> /\ issued' = {} /\ truth' = <<>> /\ truthAt' = <<>>
+       /\ serial' = {} /\ touched' = <<>> /\ bad' = bad
+       /\ UNCHANGED <<stable, scn>>
+       /\ cnt' = [cnt EXCEPT ![op] = @ + 1]
+  ELSE IF first
   THEN \* the creating step: adopt the observation, judge only the version itself
        LET names == IF IsErr(P) THEN {"LatestUnreadable"}
                     ELSE (IF WellFormedP(P) THEN {} ELSE {"WellFormed"})
@@ -455,9 +471,10 @@ Step(e) ==
            indexed == L.indices # <<>>
            pairs == IF op = "query" THEN JudgeQuery(e, L, indexed)
                     ELSE IF op \in {"take", "take_probe"} THEN JudgeTake(e, L)
+                    ELSE IF op = "copy_reread" THEN JudgeCopy(e)
                     ELSE IF op \in {"delete", "update", "merge_insert"} /\ usable THEN JudgeDml(e, L, R, indexed)
                     ELSE {}
-           names1 == IF op \in {"query", "take", "take_probe"} THEN (IF e.latest # L THEN {"FailedHasNoEffect"} ELSE {})
+           names1 == IF op \in {"query", "take", "take_probe", "copy_reread", "tag"} THEN (IF e.latest # L THEN {"FailedHasNoEffect"} ELSE {})
                      ELSE IF op = "reread"
                      THEN (IF e.res = "ok" /\ st.v \in DOMAIN obs /\ e.extra.proj # obs[st.v] THEN {"VersionsImmutable"} ELSE {})
                           \cup (IF e.res # "ok" /\ st.v \in DOMAIN obs THEN {"VersionsImmutable"} ELSE {})
